@@ -52,6 +52,8 @@ def gen(rng, kind, tier):
         dim = int(rng.choice([2, 2, 3]))
         shape = [int(rng.integers(280, 340)), int(rng.integers(240, 300))] if dim == 2 else [int(rng.integers(40, 52)) for _ in range(3)]
         h = [float(np.round(rng.uniform(0.5, 2.0), 3)) for _ in range(dim)]
+        if rng.random() < 0.5:
+            shape, h = [shape[-1]] * dim, [h[0]] * dim  # a square / cubic box: many modes share their wave number exactly
         spec = {"family": "cart", "bounds": [[0.0, h[a] * shape[a]] for a in range(dim)], "shape": shape, "periodic": [True] * dim}
         return {"grid": spec, "field": {"type": "wave", "seed": int(rng.integers(1 << 30)),
                                         "m": [int(rng.integers(3, 12))] + [int(rng.integers(0, 3)) for _ in range(dim - 1)],
@@ -69,6 +71,11 @@ def gen(rng, kind, tier):
         h_a = (b[a, 1] - b[a, 0]) / spec["shape"][a]
         spec["shape"][a] = n_new
         spec["bounds"][a] = [float(b[a, 0]), float(b[a, 0] + h_a * n_new)]
+    if kind == "smooth" and dim >= 2 and rng.random() < 0.3:
+        # square / cubic boxes with equal spacings: symmetry-related modes have exactly the same wave number
+        n0, b0 = spec["shape"][0], spec["bounds"][0]
+        spec["shape"] = [n0] * dim
+        spec["bounds"] = [[float(b[0]), float(b[0] + (b0[1] - b0[0]))] for b in spec["bounds"]]
     t = str(rng.choice(["noise", "noise-offset", "wave", "emulsion", "spike", "small", "large"]))
     f = {"type": t, "seed": int(rng.integers(1 << 30))}
     if t == "wave":
@@ -313,7 +320,21 @@ def run(case, rec):
     k, s = (np.asarray(x, float) for x in c.result)
     rec.check(k.shape == s.shape == (len(wn),) and bool(np.array_equal(k, np.asarray(wn))), "smoothed-wavenumbers",
               f"requested wave numbers {wn}, got {k.tolist()}; {label}")
+    # whole-number wave numbers may be handed over as integers (a range, an integer array); all arguments may be positional
+    wn_int = [float(i) for i in range(1, 1 + min(5, max(2, int(max(wn)))))]
+    ci = common.monitored(rec, "get_structure_factor", sf, field_of(spec, data), smoothing=sm, wave_numbers=wn_int)
+    for form, arg in (("list of ints", [int(x) for x in wn_int]), ("range", range(1, 1 + len(wn_int))), ("integer array", np.arange(1, 1 + len(wn_int)))):
+        cj = common.monitored(rec, "get_structure_factor", sf, field_of(spec, data), smoothing=sm, wave_numbers=arg)
+        if rec.check(ci.ok and cj.ok, "no-exception", f"integer wave numbers ({form}) raised {cj.exc!r} / {ci.exc!r}; {label}"):
+            rec.check(np.array_equal(np.asarray(cj.result[0], float), np.asarray(wn_int)) and
+                      bool(np.allclose(np.asarray(cj.result[1], float), np.asarray(ci.result[1], float), rtol=1e-12, atol=0, equal_nan=True)),
+                      "smoothed-wavenumbers", f"wave numbers given as {form} give {np.asarray(cj.result[1]).tolist()[:4]} at "
+                      f"{np.asarray(cj.result[0]).tolist()[:4]}, the same numbers as floats give {np.asarray(ci.result[1]).tolist()[:4]}; {label}")
+    cp = common.monitored(rec, "get_structure_factor", sf, field_of(spec, data), sm, wn, True)
     c0 = common.monitored(rec, "get_structure_factor", sf, field_of(spec, data), smoothing=sm, wave_numbers=wn, add_zero=True)
+    if rec.check(cp.ok and c0.ok, "no-exception", f"positional call raised {cp.exc!r}; {label}"):
+        rec.check(all(np.array_equal(np.asarray(x, float), np.asarray(y, float), equal_nan=True) for x, y in zip(cp.result, c0.result)), "add-zero",
+                  f"get_structure_factor(field, smoothing, wave_numbers, True) differs from the call with keywords; {label}")
     if rec.check(c0.ok, "no-exception", f"add_zero raised {c0.exc!r}; {label}"):
         k0, s0 = (np.asarray(x, float) for x in c0.result)
         ok = k0.shape == (len(wn) + 1,) and k0[0] == 0 and s0[0] == 1 and np.array_equal(k0[1:], k) and np.allclose(s0[1:], s, rtol=1e-12, atol=0, equal_nan=True)
